@@ -105,7 +105,7 @@ class ConfigMeta(type):
             if isinstance(cv, ConfigValue):
                 setattr(cls, n, v)
             else:
-                AttributeError(f"{cls} has no config value {n}")
+                raise AttributeError(f"{cls} has no config value {n}")
 
         return cls.to_dict()
 
